@@ -29,7 +29,7 @@ pub fn stmt(ctx: &mut Ctx, internal: bool) -> String {
         35..=37 => format!(".kg drop {kg}"),
         38 => ctx.pick(&[".rel", ".rule", ".status", ".index list"]).to_string(),
         39 => ".compact".into(),
-        40 => ctx.pick(&[".session", ".session clear", ".user list", ".kg acl list", ".help", ".load x"]).to_string(),
+        40 => ctx.pick(&[".session clear", ".session clear", ".user list", ".kg acl list", ".help", ".load x"]).to_string(),
         41..=42 => format!(".rel drop {}", ctx.pick(&["m1", "m2", "v1", "sc1", "nosuch"])),
         43 => format!(".clear prefix {}", ctx.pick(&["m", "m1", "z"])),
         44..=48 => "?m1(X)".into(),
@@ -93,3 +93,55 @@ pub fn decorate(ctx: &mut Ctx, lines: &[String], level: u32) -> String {
 
 /// 1..=n statements
 pub fn lines(ctx: &mut Ctx, n: usize, internal: bool) -> Vec<String> { (0..n).map(|_| stmt(ctx, internal)).collect() }
+
+/// random ACL/session setup spec (see `hworld::World::new`)
+pub fn setup(ctx: &mut Ctx) -> String {
+    let mut acl = vec![];
+    for kg in ["default", "kga", "kgb"] { for u in ["vi", "ed"] {
+        match ctx.below(7) { 0 | 1 => {}, 2 | 3 => acl.push(format!("{kg}:{u}:viewer")), 4 => acl.push(format!("{kg}:{u}:editor")), 5 => acl.push(format!("{kg}:{u}:owner")), _ => acl.push(format!("{kg}:{u}:Viewer")) }
+    } }
+    let sess: Vec<String> = ["vi", "ed", "adm"].iter().map(|u| format!("{u}:{}", ctx.pick(&["default", "kga", "kgb"]))).collect();
+    format!("acl={}/sess={}", if acl.is_empty() { "-".to_string() } else { acl.join(",") }, sess.join(","))
+}
+
+fn mutating(ctx: &mut Ctx, internal: bool) -> String {
+    if internal && ctx.chance(1, 2) {
+        return match ctx.below(4) { 0 => format!("+kg_acls(\"{}\", \"{}\", \"owner\")", ctx.pick(&["default", "kga", "kgb"]), ctx.pick(&["vi", "ed"])), 1 => format!("+users(\"x{}\", \"h\", \"admin\")", ctx.below(5)), 2 => "-users(\"adm\", \"h\", \"admin\")".to_string(), _ => ".rel drop users".to_string() };
+    }
+    match ctx.below(12) {
+        0..=3 => format!("+m1({})", ctx.range(1, 9)), 4 => format!("+m2({}, {})", ctx.range(1, 9), ctx.range(1, 9)), 5 => format!("-m1({})", ctx.range(0, 3)),
+        6 => format!("+v{}(X) <- m1(X)", ctx.range(1, 2)), 7 => format!("+sc{}(a: int)", ctx.range(1, 2)), 8 => ".rel drop m1".to_string(),
+        9 => ".clear prefix m".to_string(), 10 => format!(".kg drop {}", ctx.pick(&["kga", "kgb"])), _ => ".compact".to_string(),
+    }
+}
+
+/// a program of one of the chosen shapes; returns (text, shape name)
+pub fn program(ctx: &mut Ctx, internal: bool) -> (String, &'static str) {
+    let ikg = |ctx: &mut Ctx| -> &'static str { if internal && ctx.chance(2, 3) { "_internal" } else { *ctx.pick(&["kga", "kgb", "default"]) } };
+    match ctx.below(9) {
+        0 | 1 => (stmt(ctx, internal), "single"),
+        2 => { let n = 2 + ctx.below(4); let mut ls = lines(ctx, n, internal); let p = ctx.below(ls.len()); ls[p] = mutating(ctx, internal); (ls.join("\n"), "multi-plain") }
+        3 => {
+            let first = format!("{} // {}", ctx.pick(&["?m1(X)", ".kg", "?m2(X, Y)", ".status", "m1(3)"]), ctx.pick(&["note", "+m1(1)", ""]));
+            let mut ls = vec![first]; let n = 1 + ctx.below(3); for _ in 0..n { ls.push(if ctx.chance(2, 3) { mutating(ctx, internal) } else { stmt(ctx, internal) }); }
+            (ls.join("\n"), "comment-cut")
+        }
+        4 => {
+            let first = ctx.pick(&[".kg list", ".status", ".kg acl list", ".rule", ".index list", ".help", ".session clear"]).to_string();
+            let mut ls = vec![first]; let n = 1 + ctx.below(3); for _ in 0..n { ls.push(if ctx.chance(2, 3) { mutating(ctx, internal) } else { stmt(ctx, internal) }); }
+            (ls.join("\n"), "tolerant-meta")
+        }
+        5 => {
+            let mut ls = vec![format!(".kg use {}", ikg(ctx))]; let n = 1 + ctx.below(3);
+            for _ in 0..n { ls.push(if ctx.chance(2, 3) { mutating(ctx, internal) } else { stmt(ctx, internal) }); }
+            (ls.join("\n"), "use-then")
+        }
+        6 => {
+            let mut ls = vec![ctx.pick(&["?m1(X)", ".kg", "+m1(2)", ".kg list"]).to_string(), format!(".kg use {}", ikg(ctx))]; let n = 1 + ctx.below(2);
+            for _ in 0..n { ls.push(if ctx.chance(1, 2) { mutating(ctx, internal) } else { ctx.pick(&["?m1(X)", "?users(A, B, C)", "?kg_acls(A, B, C)"]).to_string() }); }
+            (ls.join("\n"), "later-use")
+        }
+        7 => { let n = 2 + ctx.below(3); let mut ls = lines(ctx, n, internal); ls.push(mutating(ctx, internal)); let t = decorate(ctx, &ls, 2); (t, "decorated") }
+        _ => { let q = ctx.pick(&["?m1(X)", "?m2(X, Y)", "?users(A, B, C)"]).to_string(); if ctx.chance(1, 2) { (q, "query") } else { (format!("{q}\n{}", mutating(ctx, internal)), "query-then") } }
+    }
+}
